@@ -164,7 +164,10 @@ func c03Mutations() []c03mut {
 		return true
 	}
 	return []c03mut{
-		{"version", func(c *pbt.C, h *sim.Hist, b *nom.AccountBlock, l *sim.Ledger) bool { b.Version = []uint64{0, 2}[c.Pick("m.v", 2)]; return true }},
+		{"version", func(c *pbt.C, h *sim.Hist, b *nom.AccountBlock, l *sim.Ledger) bool {
+			b.Version = []uint64{0, 2}[c.Pick("m.v", 2)]
+			return true
+		}},
 		{"chain-id", func(c *pbt.C, h *sim.Hist, b *nom.AccountBlock, l *sim.Ledger) bool {
 			b.ChainIdentifier = []uint64{0, b.ChainIdentifier + 1}[c.Pick("m.v", 2)]
 			return true
@@ -300,7 +303,10 @@ func c03Mutations() []c03mut {
 			b.Difficulty = []uint64{1, 1500 * 21000, 1 << 63, ^uint64(0)}[c.Pick("m.diff", 4)]
 			return true
 		}},
-		{"nonce", func(c *pbt.C, h *sim.Hist, b *nom.AccountBlock, l *sim.Ledger) bool { b.Nonce.Data[c.Pick("m.nonce", 8)] ^= 0x10; return true }},
+		{"nonce", func(c *pbt.C, h *sim.Hist, b *nom.AccountBlock, l *sim.Ledger) bool {
+			b.Nonce.Data[c.Pick("m.nonce", 8)] ^= 0x10
+			return true
+		}},
 		{"descendant", func(c *pbt.C, h *sim.Hist, b *nom.AccountBlock, l *sim.Ledger) bool {
 			if len(b.DescendantBlocks) > 0 && c.Bool("m.descmutate") {
 				d := b.DescendantBlocks[c.Pick("m.descidx", len(b.DescendantBlocks))]
